@@ -202,7 +202,8 @@ KwTag(S, n) ==
     LET srcs == {p \in Nodes : HasEdge(p, n) /\ Edge(p, n).kw # "-"}
         val(p) == IF A(p).is_switch THEN (IF SwitchCase(S, p) # "-" THEN S.res[SwitchCase(S, p)] ELSE Absent) ELSE S.res[p]
         tagof(r) == IF r = Absent \/ r[1] \in {"none", "falsy", "lab", "err"} THEN NoTag
-                    ELSE IF r[1] = "rec" THEN [d \in Dests |-> IF d = r[3][1] THEN Max2(r[2][d], r[3][2]) ELSE r[2][d]]
+                    ELSE IF r[1] = "rec" THEN (IF r[3] = <<"none">> THEN r[2]
+                                               ELSE [d \in Dests |-> IF d = r[3][1] THEN Max2(r[2][d], r[3][2]) ELSE r[2][d]])
                     ELSE r[2]
         base == [d \in Dests |-> LET xs == {tagof(val(p))[d] : p \in srcs} IN IF xs = {} THEN 0 ELSE CHOOSE x \in xs : \A y \in xs : y <= x]
         ad == S.addl[n]
@@ -317,7 +318,8 @@ BodyDone(S, t) ==
         ok(r) == CollabThen(SetTop(S0, t, [f EXCEPT !.result = r]), t, "ev", "ecomp")    \* emit node_complete(None)
     IN  CASE o[1] = "ok" ->
                IF req >= 0 /\ tag[n] < req
-               THEN ok(<<"rec", tag, <<n, IF G.recfalsy[n] THEN 0 ELSE tag[n] + 1>>>>)
+               THEN ok(<<"rec", tag, IF \E i \in 1..Len(G.recnone[n]) : G.recnone[n][i] = tag[n] + 1 THEN <<"none">>
+                                     ELSE <<n, IF G.recfalsy[n] THEN 0 ELSE tag[n] + 1>>>>)
                ELSE ok(<<"val", tag, "v">>)
           [] o[1] = "none"  -> ok(<<"none", NoTag, "-">>)
           [] o[1] = "falsy" -> ok(<<"falsy", NoTag, "-">>)
@@ -417,7 +419,7 @@ RecLoop(S, t) ==
                   THEN Exec(SetPc(NotifyDesc(Notify([S EXCEPT !.res[n] = <<"err", NoTag, <<n, 0, "rec_noresult">>>>, !.hid = @ \ {n}], n), n),
                                   t, "q4"), t)
                   ELSE Raise(Notify(S, "run"), t, <<"err", <<n, 0, "rec_noresult">>>>)
-        ELSE LET S1 == [S EXCEPT !.addl[start] = f.data]
+        ELSE LET S1 == [S EXCEPT !.addl[start] = IF f.data = <<"none">> THEN <<"-">> ELSE f.data]    \* None: no additional_data
              IN  Exec(CallDag(SetPc(S1, t, "q2"), t, S.dags[f.sub]), t)
 
 Exec(S, t) ==
